@@ -19,9 +19,9 @@ LEVEL = 'exploration'
 RULE = ('systematic schedule enumeration: for each chosen element class X (quick: 16 classes covering simpleContent extension, '
         'complexContent extension, nested attribute groups, anonymous types; thorough: one class per complex type), thread A '
         'does its first use of X (construct with attributes, add the children of a shortest valid word, validate, serialise) '
-        'and is pre-empted once, at every executed library line k in turn (all k; a stride keeps it <= 900 points per class and family '
+        'and is pre-empted once, at every executed library line k in turn (all k; a stride keeps it <= 600 points per class and family '
         'in quick), while thread B runs its own first use of X (family same) or of a class sharing attributes with X (family '
-        'shared) to completion in the gap; each k in a child forked from a pristine parent. Both threads\' results '
+        'shared), or an incomplete / differently valued document, or after A made refused calls (misspelt attribute, wrong child) to completion in the gap; each k in a child forked from a pristine parent. Both threads\' results '
         '(serialisation text or exception class) are compared with the single-threaded result from a pristine child. Plus a '
         'free-running stress (8 threads, switch interval 1e-6). non-trivial = a schedule in which B actually ran inside A\'s '
         'first use; distinct = distinct (class, family, k)')
@@ -130,6 +130,18 @@ def do_scenario(spec):
                 raise last
         else:
             obj = cls()
+        if spec.get('misuse'):
+            # refused calls first (their exceptions are part of ordinary use): a misspelt attribute read and write, an
+            # undeclared constructor keyword, a value of the wrong kind, a child that does not belong here
+            for f in (lambda: getattr(obj, 'no_such_attribute_'), lambda: setattr(obj, 'colourr', 'x'),
+                      lambda: cls(no_such_keyword='x'),
+                      (lambda: setattr(obj, 'value_', ('not', 'a', 'value'))) if spec['values'] else (lambda: None),
+                      lambda: obj.add_child(getattr(xe, 'XMLScorePartwise')(xsd_check=False)),
+                      lambda: setattr(obj, 'xml_no_such_child', None)):
+                try:
+                    f()
+                except Exception:  # noqa: BLE001
+                    pass
         for an, lex in spec['attrs']:
             last = None
             for pv in _cands(lex):
@@ -297,12 +309,19 @@ def run_shard(shard, tier, seed):
     inc = incomplete_spec(specA)
     if inc is not None:
         families.append(('incomplete-B', inc))
+    # A makes a few refused calls before its normal work (error paths touch the shared tables too); B works normally
+    families.append(('refused-calls-A', None))
     # B uses other valid values than A (for union-typed attributes: the other member type, e.g. a number instead of a token)
     alt = scenario_spec(cn, 'last')
     if alt['attrs'] != specA['attrs'] or alt['values'] != specA['values']:
         families.append(('other-values-B', alt))
     windows = collections.Counter()
+    specA0 = specA
     for fam, specB in families:
+        specA = specA0
+        if fam == 'refused-calls-A':
+            specA = dict(specA0, misuse=True)
+            specB = inc if inc is not None else specA0
         refA = in_child(lambda: list(do_scenario(specA)))
         refB = in_child(lambda: list(do_scenario(specB)))
         base = in_child(lambda: preempt_run(specA, specB, None))
@@ -311,7 +330,7 @@ def run_shard(shard, tier, seed):
             continue
         n = base[2]
         c['lines_in_first_use:' + fam] = n
-        limit = 900 if tier == 'quick' else 6000
+        limit = 600 if tier == 'quick' else 6000
         stride = max(1, -(-n // limit))
         ks = list(range(1, n + 1, stride))
         for k in ks:
